@@ -413,12 +413,12 @@ Proof.
     assert (TI1 : TI s1 g1) by (constructor; [apply (fi_R _ _ H1)|apply (fi_info _ _ H1)|exact Hp1]).
     assert (HK1 : K (p_tree s1) g1) by (apply (HKw s1 g1 Eq4 H1 S1 (T1 eq_refl))).
     apply wp_bind. eapply wp_weaken; [apply (proj1 (calls_all K K_move K_upd f5) 0 s1 g1 None [] [] TI1 (ws_typed _ _ _ _ S1 Hty) Hl1 Hl1 (conj Hroot1 eq_refl) HK1)|auto|].
-    intros r5 s2 (g2 & m2 & TI2 & Hrel2 & _ & Hroots2 & Hty2 & HK2).
+    intros r5 s2 (g2 & m2 & (TI2 & Hrel2 & _ & Hroots2 & Hty2 & HK2) & _ & _).
     destruct (pres_eqb r5 ROk); cbn [negb].
     2:{ apply wp_ret. exists g2. destruct TI2 as [A B C]. split; [exact A|]. split; [exact B|]. split; [exact C|discriminate]. }
     assert (Hl2 : glive g2 0) by (apply (reloc_glive _ _ _ 0 Hrel2); exact Hl1).
     apply wp_bind. eapply wp_weaken; [apply (proj1 (nonNamed_all K K_move f6) 0 s2 g2 None [] [] TI2 Hl2 (conj (Hroots2 0 Hroot1) eq_refl) HK2)|auto|].
-    intros r6 s3 (g3 & m3 & TI3 & Hrel3 & _ & Hroots3 & Hpf3 & HK3).
+    intros r6 s3 (g3 & m3 & (TI3 & Hrel3 & _ & Hroots3 & Hpf3 & HK3) & _ & _).
     destruct (pres_eqb r6 ROk); cbn [negb]; apply wp_ret; exists g3; destruct TI3 as [A B C];
       (split; [exact A|]; split; [exact B|]; split; [exact C|]); [|discriminate].
     intros _. split; [apply (reloc_glive _ _ _ 0 Hrel3); exact Hl2|]. split; [apply Hroots3; apply Hroots2; exact Hroot1|].
